@@ -44,9 +44,13 @@ _ADDR = re.compile(r'0x[0-9a-fA-F]+')
 DS9_FILES = ['ds9.fk5.reg', 'ds9.image.reg', 'ds9.galactic.reg',
              'ds9.icrs.reg', 'ds9.composite.reg', 'ds9.color.reg',
              'ds9.fk4.hms.reg', 'ds9.ecliptic.reg', 'fk5_reference.reg',
-             'plot_image.reg', 'ds9.fits.reg', 'ds9.icrs.oneline.reg']
+             'plot_image.reg', 'ds9.fits.reg', 'ds9.icrs.oneline.reg',
+             'ds9.fk5.hms.reg', 'ds9.icrs.hms.reg', 'ds9.galactic.hms.reg',
+             'ds9.ecliptic.hms.reg', 'ds9.fk4.reg', 'ds9.color.spaces.reg',
+             'ds9.image.oneline.reg', 'galactic_reference.reg']
 CRTF_FILES = ['CRTFgeneral.crtf', 'CRTF_CARTA.crtf', 'CRTF_labelcolor.crtf',
-              'crtf_carta_sexagesimal.crtf', 'CRTFgeneraloutput.crtf']
+              'crtf_carta_sexagesimal.crtf', 'CRTFgeneraloutput.crtf',
+              'CRTF_labelcolor_output.crtf']
 FITS_FILES = ['regions_nowcs.fits', 'regions_wcs.fits']
 
 DS9_LINES = [
@@ -73,6 +77,39 @@ DS9_LINES = [
     'circle(1,2,3)',
     'image; vector(1,2,3,4)',
     'image; panda(1,2,0,90,1,3,6,1)',
+    # the same tokens in other frames and positions (hours in equatorial
+    # frames, degrees elsewhere), unit suffixes, quoting styles
+    'fk5; circle(10:00:00,+20:00:00,30")',
+    'galactic; circle(10:00:00,+20:00:00,30")',
+    'ecliptic; circle(10:00:00,+20:00:00,30")',
+    'fk4; circle(10:00:00,+20:00:00,30")',
+    'fk5; box(10h00m00s,+20d00m00s,1\',30",10)',
+    'icrs; circle(150.0d,2.2d,0.01r)',
+    'icrs; circle(2.6r,0.04r,20")',
+    'image; circle(10i,12i,3i)',
+    'image; box(3p,4p,5p,6p,0)',
+    'fk5; circle(83.63,22.01,10") # text="double quoted"',
+    "fk5; circle(83.63,22.01,10\") # text='single quoted'",
+    'image; text(5,5) # text={semi;colon}',
+    'j2000; circle(83.63,22.01,10")',
+    'b1950; circle(83.63,22.01,10")',
+    'image; point(3,4) # point=boxcircle 11',
+    'image; point(3,4) # point=arrow',
+    'image; point(3,4) # point=cross 5',
+    '# text(10,12) text={comment style}',
+    'image; ellipse(10,10,2,1,4,3,6,5,20)',
+    'image; box(10,10,2,1,4,3,6,5,20)',
+    'physical; circle(1,2,3)',
+    "fk5; circle(83.63,22.01,0.5')",
+    'fk5; polygon(10:00:00,+20:00:00,10:00:10,+20:00:00,10:00:05,+20:01:00)',
+    'galactic; polygon(10.0,0.1,10.1,0.1,10.05,0.2)',
+    'fk5; line(10:00:00,+20:00:00,10:00:10,+20:01:00) # line=1 1',
+    'image; circle(1,2,3) # dashlist=8 3 dash=1 color=#ff0000',
+    'image; circle(1,2,3) # select=0 highlite=0 fixed=1 edit=0 move=0 '
+    'delete=0 source=0',
+    'image; circle(1,2,3) || # composite',
+    'image;circle(1,2,3);box(4,5,6,7,0)',
+    'fk5;circle(10:00:00,+20:00:00,30");galactic;circle(10:00:00,+20:00:00,30")',
 ]
 DS9_BAD_LINES = [
     'image; circle(1,2', 'fk5; circle(10,20,abc")', 'image; bogus(1,2,3)',
@@ -96,6 +133,28 @@ CRTF_LINES = [
     '-circle[[20pix, 20pix], 4pix]',
     'global coord=J2000, color=blue',
     'ann circle[[10pix, 12pix], 3pix]',
+    'circle[[18:20:30.1, +10.11.54.6], 10arcsec]',
+    'circle[[18h20m30.1s, +10d11m54.6s], 10arcsec], coord=J2000',
+    'symbol[[32.1423deg, 12.1412deg], D], linewidth=2, coord=J2000, symsize=2',
+    'circle[[83.63deg, 22.01deg], 10arcsec], coord=GALACTIC',
+    'box[[18h12m24s, -23d11m00s], [18h12m34s, -23d12m00s]]',
+    'ellipse[[83.63deg, 22.01deg], [20arcsec, 10arcsec], 30deg], coord=ICRS, '
+    'linestyle=--',
+    'circle[[1.0rad, 0.2rad], 0.001rad]',
+    'circle[[83.63deg, 22.01deg], 1arcmin], range=[1GHz, 2GHz], corr=[I, Q], '
+    'veltype=RADIO, restfreq=1.42GHz',
+    'annulus[[83.63deg, 22.01deg], [10arcsec, 20arcsec]], coord=B1950',
+    'text[[83.63deg, 22.01deg], "double quoted"], font=Helvetica, '
+    'fontsize=12, fontstyle=bold, usetex=false',
+    'poly[[83.6deg, 22.0deg], [83.7deg, 22.0deg], [83.65deg, 22.1deg]], '
+    'coord=FK5',
+    'circle[[10pix, 12pix], 3pix], symthick=2, labelpos=top, labelcolor=red, '
+    'labeloff=[1, 1]',
+    'circle[[10pix,12pix],3pix]',
+    '+circle[[10pix, 12pix], 3pix]',
+    'rotbox[[83.63deg, 22.01deg], [20arcsec, 10arcsec], 30deg], '
+    'coord=ECLIPTIC',
+    'circle[[83.63deg, 22.01deg], 10arcsec], coord=SUPERGAL',
 ]
 CRTF_BAD_LINES = [
     'circle[[1pix, 2pix], ]', 'foo[[1pix, 2pix], 3pix]',
@@ -173,6 +232,28 @@ def gen_pool(rng):
     add('pixreg', {'t': 'region', 'cls': 'RectanglePixelRegion', 'params': {
         'center': {'t': 'pix', 'x': 12, 'y': 8}, 'width': 6, 'height': 3,
         'angle': {'t': 'q', 'v': 30, 'u': 'deg'}}})
+    # other constructor forms: a polygon with an origin, a compound with a
+    # caller-supplied operator, a list built from a tuple
+    add('pixreg', {'t': 'region', 'cls': 'PolygonPixelRegion', 'params': {
+        'vertices': {'t': 'pix', 'x': [1.0, 5.0, 3.0], 'y': [1.0, 1.0, 6.0]},
+        'origin': {'t': 'pix', 'x': 4.0, 'y': 2.5}}})
+    cc = gen.compound_region(rng, sky=False, depth=1)
+    cc['op'] = {'t': 'callable', 'v': 'custom_and'}
+    add('pixcomp', cc)
+    # sizes and angles spelled as Angle objects (the docstrings' spelling)
+    add('skyreg', {'t': 'region', 'cls': 'EllipseSkyRegion', 'params': {
+        'center': {'t': 'sky', 'lon': 10.0, 'lat': 20.0, 'frame': 'icrs'},
+        'width': {'t': 'angle', 'v': 40.0, 'u': 'arcsec'},
+        'height': {'t': 'angle', 'v': 0.3, 'u': 'arcmin'},
+        'angle': {'t': 'angle', 'v': rng.pick([400.0, -725.0, 30.0]),
+                  'u': 'deg'}},
+        'meta': {'t': 'meta', 'v': gen.meta_items(rng)}})
+    add('pixreg', {'t': 'region', 'cls': 'EllipsePixelRegion', 'params': {
+        'center': {'t': 'pix', 'x': 10.0, 'y': 12.0},
+        'width': {'t': 'npf', 'v': 6.0, 'dtype': 'float32'},
+        'height': {'t': 'npf', 'v': 3.0},
+        'angle': {'t': 'angle', 'v': rng.pick([400.0, -725.0, 1.2]),
+                  'u': rng.pick(['deg', 'rad'])}}})
     add('pixcomp', gen.compound_region(rng, sky=False, depth=1))
     add('pixcomp', _annulus_like(rng))
     add('skycomp', gen.compound_region(rng, sky=True, depth=1))
@@ -193,8 +274,16 @@ def gen_pool(rng):
     v = rng.pick(gen.SKY_VERTS)
     add('skyN', {'t': 'sky', 'lon': list(v[0]), 'lat': list(v[1]),
                  'frame': rng.pick(gen.SKY_FRAMES)})
-    for w in rng.sample(gen.WCS_MENU, 3):
+    for w in rng.sample(gen.WCS_MENU, 4):
         add('wcs', w)
+    # coordinates carrying more than a direction
+    add('sky0', {'t': 'sky', 'lon': 10.0, 'lat': 20.0, 'frame': 'icrs',
+                 'distance': 2.5})
+    add('sky0', {'t': 'sky', 'lon': 83.6, 'lat': 22.0, 'frame': 'fk4',
+                 'obstime': 'J1980'})
+    add('skyN', {'t': 'sky', 'lon': [10.0, 10.01, 9.99],
+                 'lat': [20.0, 20.01, 19.99], 'frame': 'icrs',
+                 'distance': 1.0, 'representation': 'cartesian'})
     # coordinates in less common spellings
     add('sky0', {'t': 'sky', 'lon': 150.0, 'lat': 2.2, 'frame': 'fk5',
                  'equinox': 'J1975'})
@@ -214,6 +303,10 @@ def gen_pool(rng):
                   'dtype': 'uint8'})
     add('image', {'t': 'image', 'shape': [40, 50], 'kind': 'float', 'seed': 5,
                   'dtype': 'float32'})
+    for k, sp in enumerate(rng.sample(['nan', 'masked', 'bigendian',
+                                       'fortran', 'strided', 'readonly'], 3)):
+        add('image', {'t': 'image', 'shape': [40, 50], 'kind': 'float',
+                      'seed': 6 + k, 'special': sp})
     fits_ok = [c for c in gen.FITS_CLASSES]
     for classes, exclude in ((sorted(gen.ALL_CLASSES), ()),
                              (sky, ()), (fits_ok, ('component',)),
@@ -222,9 +315,17 @@ def gen_pool(rng):
         add('regions', {'t': 'regions', 'v': [
             gen.simple_region(rng, classes, meta_exclude=exclude)
             for _ in range(n)]})
-    # a list that holds the same region object twice, and an empty list
+    # a list that holds the same region object twice, a list built from a
+    # tuple, and empty inputs of every kind
     add('regions', {'t': 'regions_dup', 'v': [
         gen.simple_region(rng, pix), gen.simple_region(rng, pix)]})
+    add('regions', {'t': 'regions', 'as': 'tuple', 'v': [
+        gen.simple_region(rng, pix), gen.simple_region(rng, pix)]})
+    add('regions', {'t': 'regions', 'v': []})
+    add('text:ds9', {'t': 'lit', 'v': rng.pick([
+        '', '\n\n', '# Region file format: DS9 version 4.1\n'])})
+    add('text:crtf', {'t': 'lit', 'v': '#CRTFv0\n'})
+    add('table', {'t': 'fitstable', 'cols': []})
     for f in rng.sample(DS9_FILES, 2):
         add('text:ds9', {'t': 'datafile', 'path': 'io/ds9/tests/data/' + f})
     add('text:ds9', {'t': 'lit', 'v': _ds9_text(rng)})
@@ -297,6 +398,8 @@ def make_faulty_wcs(real, fail_at, exc_kind):
             type(self)._verif_calls += 1
             if type(self)._verif_calls == type(self)._verif_fail_at:
                 type(self)._verif_fired = True
+                if exc_kind == 'nan':
+                    return True
                 if exc_kind == 'noconv':
                     raise NoConvergence('injected: WCS iteration diverged',
                                         best_solution=None, accuracy=None,
@@ -308,14 +411,23 @@ def make_faulty_wcs(real, fail_at, exc_kind):
         orig = getattr(WCS, name)
 
         def f(self, *a, **k):
-            self._verif_tick()
-            return orig(self, *a, **k)
+            nan = self._verif_tick()
+            res = orig(self, *a, **k)
+            if nan:
+                # no exception: the position has no counterpart (e.g. it is
+                # outside the projection's domain)
+                if isinstance(res, np.ndarray):
+                    res = np.full_like(res, np.nan, dtype=float)
+                else:
+                    res = [np.full_like(np.asarray(x, dtype=float), np.nan)
+                           for x in res]
+            return res
         f.__name__ = name
         return f
     for name in ('all_pix2world', 'all_world2pix', 'wcs_pix2world',
                  'wcs_world2pix'):
         setattr(FaultyWCS, name, wrap(name))
-    w = FaultyWCS(real.to_header())
+    w = FaultyWCS(real.to_header(relax=True))
     w.wcs.set()
     return w
 
@@ -487,6 +599,9 @@ class Exec:
         elif k == 'warn_error':
             fired = out[0] == 'raise' and 'Warning' in out[1]
         changed = []
+        for w in [w for w in wrec if w[0] == '<warning filters>']:
+            wrec.remove(w)
+            changed.append('warnings.filters: ' + w[1])
         for nm, obj, c0 in a.extras:
             try:
                 c1 = canon(obj)
@@ -529,7 +644,18 @@ class Exec:
             a.faulty = w
         elif a.bad() and a.rng.chance(0.5):
             a.fired = True
-            return a.rng.pick([None, 'wcs', 5])
+            c = a.rng.randrange(4)
+            if c == 3:
+                # a WCS without a celestial pair / with a third axis
+                from astropy.wcs import WCS
+                w3 = WCS(naxis=3)
+                w3.wcs.ctype = ['RA---TAN', 'DEC--TAN', 'FREQ']
+                w3.wcs.crval = [10.0, 20.0, 1.4e9]
+                w3.wcs.crpix = [10.0, 10.0, 1.0]
+                w3.wcs.cdelt = [-0.001, 0.001, 1e6]
+                w3.wcs.set()
+                return a.track('3-axis wcs', w3)
+            return [None, 'wcs', 5][c]
         return w
 
     def op_contains(self, a):
@@ -662,11 +788,24 @@ class Exec:
         w = self._wcs(a)
         return (lambda: reg.to_pixel(w)), f'{_n(reg)}.to_pixel', None
 
-    def op_rotate(self, a):
+    def _angle_arg(self, a):
         import astropy.units as u
+        from astropy.coordinates import Angle
+        deg = a.rng.pick(gen.ANGLES)
+        how = a.rng.pick(['deg', 'deg', 'rad', 'arcmin', 'Angle',
+                          'Angle_rad', 'f32'])
+        q = {'deg': lambda: deg * u.deg,
+             'rad': lambda: np.deg2rad(deg) * u.rad,
+             'arcmin': lambda: deg * 60.0 * u.arcmin,
+             'Angle': lambda: Angle(deg, 'deg'),
+             'Angle_rad': lambda: Angle(np.deg2rad(deg), 'rad'),
+             'f32': lambda: u.Quantity(np.float32(deg), u.deg)}[how]()
+        return a.track('angle', q)
+
+    def op_rotate(self, a):
         reg = a.slot(PIXREG)
         c = a.slot(('pix0',))
-        ang = a.rng.pick(gen.ANGLES) * u.deg
+        ang = self._angle_arg(a)
         if a.bad():
             a.fired = True
             if a.rng.chance(0.5):
@@ -726,6 +865,27 @@ class Exec:
         return (lambda: reg.as_artist(origin=origin, **kw)), \
             f'{_n(reg)}.as_artist({origin},{kw})', None
 
+    def op_plot(self, a):
+        """``plot()`` on an off-screen figure (no pyplot state): the region,
+        the origin and the keyword arguments are inputs like any other."""
+        from matplotlib.figure import Figure
+        reg = a.slot(PIXREG + ('bbox',))
+        kw = dict(a.rng.pick(
+            [{}, {}, {'color': 'red'}, {'lw': 2}, {'label': 'L'},
+             {'alpha': 0.3, 'zorder': 4}]))
+        if a.bad():
+            a.fired = True
+            kw['nosuchkw'] = 1
+        kw = a.track('plot kwargs', kw)
+        origin = a.rng.pick([(0, 0), (1, 1), (3.5, -2.0)])
+        origin = a.track('origin', origin if a.rng.chance(0.5)
+                         else np.array(origin, dtype=float))
+
+        def fn():
+            ax = Figure().add_subplot()
+            return reg.plot(origin=origin, ax=ax, **kw)
+        return fn, f'{_n(reg)}.plot({origin},{kw})', None
+
     def op_mpl_kwargs(self, a):
         reg = a.slot(REG)
         art = a.rng.pick(['Patch', 'Line2D', 'Text'])
@@ -773,7 +933,7 @@ class Exec:
             fn = lambda: p[key]  # noqa
         elif v == 'rotate':
             c = a.slot(('pix0',))
-            ang = a.rng.pick(gen.ANGLES) * u.deg
+            ang = self._angle_arg(a)
             fn = lambda: p.rotate(c, ang)  # noqa
         elif v == 'to_sky':
             w = self._wcs(a)
@@ -808,11 +968,15 @@ class Exec:
             if c == 0:
                 kw['coordsys'] = 'image'
             elif c == 1:
-                kw['coordsys'] = r.pick(['fk5', 'icrs', 'galactic', 'fk4'])
+                kw['coordsys'] = r.pick(['fk5', 'icrs', 'galactic', 'fk4',
+                                         'supergalactic',
+                                         'geocentrictrueecliptic', 'FK5',
+                                         'IMAGE', 'Galactic'])
             if r.chance(0.3):
-                kw['fmt'] = r.pick(['.4f', '.8f'])
+                kw['fmt'] = r.pick(['.4f', '.8f', '.2e', 'g'])
             if r.chance(0.3):
-                kw['radunit'] = r.pick(['deg', 'arcsec', 'arcmin'])
+                kw['radunit'] = r.pick(['deg', 'arcsec', 'arcmin', 'rad',
+                                        '', None])
         if a.bad():
             a.fired = True
             kw.update(r.pick({
@@ -863,6 +1027,13 @@ class Exec:
                 f = {'ds9': 'crtf', 'crtf': 'fits', 'fits': 'ds9'}[fmt]
             else:
                 data = a.rng.pick([None, 5, b'bytes'])
+        if fmt == 'crtf' and a.rng.chance(0.4):
+            # the parser's tolerance option: with 'warn' / 'ignore' parsing
+            # goes on after a bad line
+            okw = a.track('options', {'errors': a.rng.pick(
+                ['strict', 'warn', 'ignore', 'warn', 'ignore'])})
+            return (lambda: Regions.parse(data, format=f, **okw)), \
+                f'Regions.parse(<{fmt}>, {f!r}, {okw})', None
         if a.rng.chance(0.3):
             return (lambda: Regions.parse(data, f)), \
                 f'Regions.parse(<{fmt}>, {f!r}) positional', None
@@ -900,9 +1071,17 @@ class Exec:
             wkw['format'] = fmt
         if over is not None:
             wkw['overwrite'] = over
-        if fmt == 'fits' and a.rng.chance(0.3):
+        if fmt == 'fits' and a.rng.chance(0.4):
             wkw['header'] = {'EXTNAME': 'REGION', 'OBSERVER': 'verif',
                              'NUMBER': 7}
+            c = a.rng.randrange(4)
+            if c == 0:
+                from astropy.io import fits
+                wkw['header'] = fits.Header(list(wkw['header'].items()))
+            elif c == 1:
+                wkw['header'] = {'observer': 'verif', 'number': 7}
+            elif c == 2:
+                wkw['header'] = None
         a.track('options', wkw)
 
         def fn():
@@ -958,8 +1137,15 @@ class Exec:
                 cut = len(data) // 2 if c == 1 else 7
                 with open(path, 'wb') as fh:
                     fh.write(data[:cut])               # truncated file
-        return (lambda: Regions.read(path, format=form)), \
-            f'Regions.read({f},{form!r})', None
+        if a.rng.chance(0.3):
+            import pathlib
+            path = pathlib.Path(path)
+        okw = {}
+        if fmt == 'crtf' and a.rng.chance(0.3):
+            okw = a.track('options', {'errors': a.rng.pick(['warn',
+                                                            'ignore'])})
+        return (lambda: Regions.read(path, format=form, **okw)), \
+            f'Regions.read({f},{form!r},{okw})', None
 
     def op_get_formats(self, a):
         from regions import Region, Regions
@@ -1482,14 +1668,16 @@ def reference_eval(arg):
 OPS = [('contains', 3), ('in', 1), ('sky_contains', 2), ('area_bbox', 2),
        ('to_mask', 3), ('mask_apply', 4.5), ('bbox_ops', 1.5), ('to_sky', 3),
        ('to_pixel', 3), ('rotate', 2), ('copy', 2), ('combine', 1.5),
-       ('as_artist', 2.5), ('mpl_kwargs', 1), ('eq', 1.5), ('repr', 1),
+       ('as_artist', 2.5), ('plot', 1.5), ('mpl_kwargs', 1), ('eq', 1.5),
+       ('repr', 1),
        ('polygon', 0.7), ('pixcoord', 2), ('serialize', 6), ('parse', 5),
        ('write_read', 3), ('shared_io', 2.5), ('read_data', 1.5),
        ('get_formats', 0.5),
        ('regions_ops', 1.5)]
 FAULT_OPS = {
     'bad_arg': ['contains', 'in', 'to_mask', 'mask_apply', 'rotate',
-                'combine', 'as_artist', 'mpl_kwargs', 'pixcoord', 'serialize',
+                'combine', 'as_artist', 'plot', 'mpl_kwargs', 'pixcoord',
+                'serialize',
                 'parse', 'to_sky', 'to_pixel', 'sky_contains', 'write_read'],
     'collab_fail': ['to_sky', 'to_pixel', 'sky_contains', 'pixcoord'],
     'os_fail': ['write_read', 'read_data'],
@@ -1523,8 +1711,12 @@ def gen_plan(seed, index, tier='quick'):
             if k in FAULT_OPS[fk]:
                 op['fault'] = {'kind': fk}
                 if fk == 'collab_fail':
-                    op['fault']['n'] = f_rng.randint(1, 4)
-                    op['fault']['exc'] = f_rng.pick(['noconv', 'value'])
+                    # mostly early, sometimes deep inside the conversion
+                    # (second operand of a compound, a later vertex ...)
+                    op['fault']['n'] = f_rng.randint(1, 4) \
+                        if f_rng.chance(0.6) else f_rng.randint(5, 14)
+                    op['fault']['exc'] = f_rng.pick(['noconv', 'value',
+                                                     'nan'])
                 if fk == 'line_abort':
                     op['fault']['k'] = max(1, int(10 ** f_rng.uniform(0, 3.6)))
         ops.append(op)
